@@ -21,7 +21,8 @@ Verdicts(ob) ==
   LET va == IF ob.cls = "mov" THEN MovVerdict(ob.o, ob.ok, ob.w) ELSE LegVerdict(Rows, ob.rs, ob.o, ob.ok, ob.w)
       vl == IF ob.lx = 0 THEN <<"", "">>
             ELSE IF ob.cls = "mov" THEN MovVerdict(ob.o, ob.lok, ob.lw) ELSE LegVerdict(Rows, ob.rs, ob.o, ob.lok, ob.lw)
-      cor == CASE va[1] = "accepts-unencodable" -> (ob.lx = 1 /\ ~ob.lok) \/ ob.nl = 1
+      cor == CASE ob.cls = "mov" -> va[1] # "" /\ ob.lx = 1 /\ (~ob.lok \/ vl[1] = "")    \* llvm-mc has no multi-word mov
+               [] va[1] = "accepts-unencodable" -> (ob.lx = 1 /\ ~ob.lok) \/ ob.nl = 1
                [] va[1] \in {"field", "length"} -> ob.lx = 1 /\ ob.lok /\ vl[1] = ""
                [] OTHER -> FALSE
   IN <<va, vl, cor>>
